@@ -162,10 +162,12 @@ func VP_C18_AcceptedSetsNeverPanic() {
 	cfg := filepath.Join(root, "c.yaml")
 	var set map[string]interface{}
 	if vpChoose("algo", 2) == 0 {
-		edge := []int{0, 1, 255}
+		// values at and beyond the width of the configuration field (threads is 8 bits wide in the
+		// schema): the loader either refuses them or the accepted set must work
+		edge := []int{0, 1, 255, 256, 512}
 		set = map[string]interface{}{"id": 1, "argon2id": map[string]interface{}{
 			"time": []int{0, 1, 2}[vpChoose("time", 3)], "memory": []int{0, 8}[vpChoose("memory", 2)],
-			"threads": edge[vpChoose("threads", 3)], "length": []int{0, 1, 32}[vpChoose("length", 3)]}}
+			"threads": edge[vpChoose("threads", 5)], "length": []int{0, 1, 32}[vpChoose("length", 3)]}}
 	} else {
 		set = map[string]interface{}{"id": 1, "scryptauth": map[string]interface{}{
 			"hmackey": vpHmacKeyB64, "cost": []int{0, 1, 2}[vpChoose("cost", 3)],
